@@ -410,4 +410,7 @@ def run(ck):
     _m = lambda n: _il.import_module('props.' + n)
     _c7.import_results(ck, _m("C20"), "4", "increment_version", "2")
     _c7.import_results(ck, _m("C01"), "4", None, "2")
-
+    # ---- shared clause demonstrated by the twin round (seeding round 10) ---------------------------------------------
+    from props import common as _c10
+    import importlib as _il10
+    _c10.import_results(ck, _il10.import_module("props.C12"), "2", "dispatch_events", "4")  # a queued synthetic event forces the non-blocking wait (the zero timeout follows every source's answer, not the last one's)
